@@ -34,11 +34,25 @@ def ids(raw: dict) -> dict:
             "nodes": [(n["uuid"], n["node_semantic_id"]) for n in pl["pipeline_spec_canonical"]["nodes"]]}
 
 
+_VEC_MEMO: Dict[Tuple[str, Tuple[str, ...]], str] = {}
+
+
+def _vec_of(text: str, tree: ast.AST, vars_: Tuple[str, ...]) -> str:
+    key = (text, vars_)
+    if key not in _VEC_MEMO:
+        if len(_VEC_MEMO) > 4000:
+            _VEC_MEMO.clear()
+        _VEC_MEMO[key] = sem_vec(_from_ast(tree), vars_, GRID)
+    return _VEC_MEMO[key]
+
+
 def expr_semantically_equal(a: str, b: str) -> bool:
+    """Equal on the complete grid over the variables that occur in either expression (the others cannot matter)."""
     try:
-        ta, tb = _from_ast(ast.parse(a, mode="eval").body), _from_ast(ast.parse(b, mode="eval").body)
-        vars_ = ("t", "u", "v")
-        return vec_compatible(sem_vec(ta, vars_, GRID), sem_vec(tb, vars_, GRID))
+        pa, pb = ast.parse(a, mode="eval").body, ast.parse(b, mode="eval").body
+        used = {n.id for t in (pa, pb) for n in ast.walk(t) if isinstance(n, ast.Name)}
+        vars_ = tuple(v for v in ("t", "u", "v") if v in used) or ("t",)
+        return vec_compatible(_vec_of(a, pa, vars_), _vec_of(b, pb, vars_))
     except Exception:
         return False
 
@@ -218,6 +232,63 @@ def _worker(chunk):
     return out
 
 
+def _path_ids(path: str) -> dict:
+    """Identities through the entry points that take a FILE PATH."""
+    from semantiva.configurations.load_pipeline_from_yaml import load_pipeline_from_yaml
+    from semantiva.pipeline.graph_builder import build_graph, compute_pipeline_id
+
+    g = build_graph(path)
+    cfg = load_pipeline_from_yaml(path)
+    return {"graph_node_uuids": [n["node_uuid"] for n in g["nodes"]], "graph_pipeline_id": compute_pipeline_id(g),
+            "loaded_nodes": json.dumps(cfg.nodes, sort_keys=True, default=repr)}
+
+
+def _file_history_worker(chunk):
+    """A configuration file edited IN PLACE: the mutant is written over the original at the same path, padded to the same size, and the
+    file's mtime is put back (what a coarse-grained file-system clock, `cp -p` or an archive extraction leave behind).  What the
+    path-taking entry points say about the file afterwards must be what they say about a fresh file with the mutant's content."""
+    import os
+
+    import yaml
+
+    harness.quiet()
+    d = harness.enter_scratch()
+    out = {"n": 0, "viol": []}
+    for ci, cfg in chunk:
+        muts = list(mutations(cfg))
+        step = max(1, len(muts) // 10)
+        p = os.path.join(d, f"edited_{ci}.yaml")
+        for k, (label, mut, affected) in enumerate(muts[::step]):
+            a, b = yaml.safe_dump(cfg, sort_keys=False), yaml.safe_dump(mut, sort_keys=False)
+            size = max(len(a.encode()), len(b.encode())) + 8
+            pad = lambda t: t + "#" + " " * (size - len(t.encode()) - 2) + "\n"  # noqa: E731 - a trailing comment: cosmetic
+            try:
+                with open(p, "w") as f:
+                    f.write(pad(a))
+                os.utime(p, (1.7e9, 1.7e9))
+                first = _path_ids(p)
+                with open(p, "w") as f:
+                    f.write(pad(b))
+                os.utime(p, (1.7e9, 1.7e9))
+                edited = _path_ids(p)
+                q = os.path.join(d, f"fresh_{ci}_{k}.yaml")
+                with open(q, "w") as f:
+                    f.write(pad(b))
+                fresh = _path_ids(q)
+                os.unlink(q)
+            except Exception:
+                continue  # a mutant the loader refuses: not an identity question
+            out["n"] += 1
+            for key in fresh:
+                if edited[key] != fresh[key]:
+                    stale = "the ORIGINAL's" if edited[key] == first[key] else "neither file's"
+                    out["viol"].append((f"edited-file-keeps-old-identity|{key}", f"config #{ci}: after {label} was written over the file (same size, same mtime) "
+                                        f"{key} is {stale} value, not the one a fresh file with that content gets",
+                                        {"kind": "file-history", "config": cfg, "ci": ci}))
+                    break
+    return out
+
+
 def check(tier: str, seed: int) -> Result:
     configs = idconfigs.base_configs(tier)
     jobs = core.seeded_order(list(enumerate(configs)), seed)
@@ -231,8 +302,14 @@ def check(tier: str, seed: int) -> Result:
             ops[k] = ops.get(k, 0) + v
         for sig, msg, case in o["viol"]:
             viols.append(Violation(sig, msg, case))
+    n_hist = 0
+    hjobs = list(enumerate(configs)) if tier == "quick" or len(configs) <= 60 else list(enumerate(configs))[:: len(configs) // 60]
+    for o in core.pmap_chunks(_file_history_worker, hjobs, chunk=2, maxtasks=8):
+        n_hist += o["n"]
+        for sig, msg, case in o["viol"]:
+            viols.append(Violation(sig, msg, case))
     cov = {
-        "evaluations": n, "distinct_nontrivial": len(ops),
+        "evaluations": n + n_hist, "files_edited_in_place": n_hist, "distinct_nontrivial": len(ops),
         "rule": "%d configurations x every single-point semantic mutation at every applicable position: processor of a node, parameter leaf / "
                 "added / removed key / list element at any depth, delete / duplicate / swap nodes; for sweeps: wrapped processor, expression "
                 "(constant, variable, operator, function, swapped operands of - / // %% ** and if-else arms; mutants that evaluate equal on the "
@@ -249,8 +326,31 @@ def check(tier: str, seed: int) -> Result:
 
 def replay(case) -> List[Violation]:
     harness.quiet()
+    if case["kind"] == "file-history":
+        o = _file_history_worker([(case.get("ci", 0), case["config"])])
+        return [Violation(s, m, c) for s, m, c in o["viol"]]
     if case["kind"] == "uuid":
         uu = [u for u, _ in ids(copy.deepcopy(case["config"]))["nodes"]]
         return [Violation("duplicate-node-uuid", str(uu), case)] if len(set(uu)) != len(uu) else []
     o = _worker([(0, case["config"])])
     return [Violation(s, m, c) for s, m, c in o["viol"] if c.get("label") == case.get("label")]
+
+
+# ---------------------------------------------------------------------------------------------
+# environment grid (mc/envgrid.py): which mutations change which identities does not depend on the process
+
+def env_cases(tier: str):
+    from mc import envgrid
+
+    # (not the configurations with 30-term expressions: judging their expression mutants on the value grid costs 15 s per process)
+    cfgs = [c for c in idconfigs.base_configs("quick") if len(json.dumps(c)) < 1200]
+    return [{"ci": i, "config": c} for i, c in enumerate(envgrid.pick(cfgs, 8 if tier == "quick" else 24))]
+
+
+def env_observe(case):
+    from mc import envgrid
+
+    envgrid.scratch()
+    o = _worker([(case["ci"], case["config"])])
+    base = ids(copy.deepcopy(case["config"]))
+    return {"judged": sorted({v[0] for v in o["viol"]}), "mutants": o["n"], "skipped": o["skipped"], "ids": base}
